@@ -129,6 +129,20 @@ def gen_cases(tier, seed):
         for s in shells:
             cost *= len(s["e"]) * (s["l"] + 1) * (s["l"] + 2) / 2
         cases.append({"kind": "kernel", "shells": shells, "classes": [gcls, "span-all", "ls:%d%d%d%d" % ls, "L:%d" % sum(ls)], "cost": cost * (1 + sum(ls)) ** 2 / 50})
+    # Boys-window family: high-l quartets on two centres whose Boys argument rho |PQ|^2 runs through 10 .. 40
+    bw = [((3, 3), (3, 3)), ((3, 2), (3, 2)), ((2, 2), (2, 2)), ((3, 3), (2, 2))]
+    for (lb_, lk_) in bw:
+        for T in range(10, 42, 4 if tier == "quick" else 2):
+            rng = bases.rng_for("C04", seed, tier, "boys", lb_, lk_, T)
+            ea, ec = float(rng.uniform(1.5, 4.0)), float(rng.uniform(1.5, 4.0))
+            rho = (2 * ea) * (2 * ec) / (2 * ea + 2 * ec)
+            u = rng.normal(size=3)
+            u /= np.linalg.norm(u)
+            A = rng.normal(size=3) * 0.5
+            Bc = A + u * float(np.sqrt(T / rho))
+            shells = [{"l": lb_[0], "c": [float(v) for v in A], "e": [ea], "k": [[1.0]], "t": "c"}, {"l": lb_[1], "c": [float(v) for v in A], "e": [ea], "k": [[1.0]], "t": "c"},
+                      {"l": lk_[0], "c": [float(v) for v in Bc], "e": [ec], "k": [[1.0]], "t": "c"}, {"l": lk_[1], "c": [float(v) for v in Bc], "e": [ec], "k": [[1.0]], "t": "c"}]
+            cases.append({"kind": "kernel", "shells": shells, "classes": ["boys-window", "boysT:%d" % T, "ls:%d%d%d%d" % (lb_ + lk_)], "cost": 300})
     # ill-conditioned list, all pair arrangements
     rng = bases.rng_for("C04", "ill")
     cen = [[0.0, 0.0, 0.0], [0.0, 0.0, 0.0], [0.9, 0.3, -0.4], [0.9, 0.3, -0.4]]
@@ -276,7 +290,7 @@ def classify(case, v):
     C04/recursion-amplification: rounding amplified by the electron-transfer and horizontal recursions (see
     amp_total). Accepted only when the quartet's amplification exponent in its BEST orientation is >= A0 = 22 (every
     deviation above 1e-6 seen in calibration had A >= 24.5), the deviation is within the envelope 1e4*eps*exp(A) the
-    mechanism can explain, and below 1e-3 of the Schwarz scale. Anything else is a VIOLATION.
+    mechanism can explain, and below 1e-2 of the Schwarz scale. Anything else is a VIOLATION.
     C04/far-field-cancellation: elements whose Schwarz scale is below 1e-9 of the natural scale (functions tens of
     bohr apart) lose relative accuracy; accepted only while the ABSOLUTE error stays below 1e-15 of the largest
     element of the array.
@@ -288,7 +302,7 @@ def classify(case, v):
         return None
     A = v.get("A_total")
     if q in ("eri_kernel", "eri_chemist", "eri_physicist") and A is not None:
-        if A >= A0 and v.get("err", 1.0) <= min(1e-3, 1e4 * EPS * float(np.exp(min(A, 60.0)))):
+        if A >= A0 and v.get("err", 1.0) <= min(1e-2, 1e4 * EPS * float(np.exp(min(A, 60.0)))):
             return "C04/recursion-amplification"
     return None
 
